@@ -818,28 +818,20 @@ impl UnorderedPartialEq for Object {
 			return false;
 		}
 
-		if !self.iter().all(|Entry { key, value: a }| {
+		// Entries are matched one-to-one so that multiplicities count.
+		let mut matched = vec![false; other.entries.len()];
+		self.iter().all(|Entry { key, value: a }| {
 			other
-				.get_entries(key)
-				.any(|Entry { value: b, .. }| a.unordered_eq(b))
-		}) {
-			return false;
-		}
-
-		if self.indexes.contains_duplicate_keys()
-			&& !other.iter().all(
-				|Entry {
-				     key: other_key,
-				     value: b,
-				 }| {
-					self.get_entries(other_key)
-						.any(|Entry { value: a, .. }| a.unordered_eq(b))
-				},
-			) {
-			return false;
-		}
-
-		true
+				.get_entries_with_index(key)
+				.any(|(i, Entry { value: b, .. })| {
+					if !matched[i] && a.unordered_eq(b) {
+						matched[i] = true;
+						true
+					} else {
+						false
+					}
+				})
+		})
 	}
 }
 
